@@ -3,13 +3,14 @@
 worktree of /repo with the change applied (VERIF_REPO), record whether and how it was detected.
 Never touches /repo's working tree."""
 import json, os, subprocess, sys, glob, re
-W='/root/wk/seedtest-repo'
+ROOT=os.path.dirname(os.path.abspath(__file__))   # works from a snapshot of /verif too (vp run)
+W=os.environ.get('SEEDTEST_WORKTREE','/root/wk/seedtest-repo')
 def sh(c, **kw):
     p=subprocess.run(c,shell=True,stdout=subprocess.PIPE,stderr=subprocess.STDOUT,text=True,**kw); return p.returncode,p.stdout
 sh('git -C /repo worktree remove --force %s'%W); sh('git -C /repo worktree add --detach %s HEAD'%W)
 ids=sys.argv[1:]
 res={}
-for d in sorted(glob.glob('/verif/seeded/*')):
+for d in sorted(glob.glob(os.path.join(ROOT,'seeded','*'))):
     key=os.path.basename(d)
     if ids and key not in ids and key.split('-')[0] not in ids: continue
     prop=key.split('-')[0]
@@ -19,7 +20,7 @@ for d in sorted(glob.glob('/verif/seeded/*')):
     props=[prop]+[p for p in (os.environ.get('ALSO','').split(',')) if p]
     det=[]
     for p in props:
-        rc,out=sh('./check %s'%p,cwd='/verif',env=dict(os.environ,VERIF_REPO=W),timeout=3600)
+        rc,out=sh('./check %s'%p,cwd=ROOT,env=dict(os.environ,VERIF_REPO=W),timeout=3600)
         v=[l for l in out.split('\n') if l.startswith('VIOLATION')]
         txt=[l.strip() for l in out.split('\n') if l.startswith('  ')]
         det.append((p,rc,v[:1],txt[:1]))
